@@ -23,7 +23,7 @@ def _c14_classes(i, o):
 
 PROPS = {
     'C13': dict(
-        id='C13', cluster='Mkl', crate='h-mkl', tag=13,
+        id='C13', crosscheck_n=1, cluster='Mkl', crate='h-mkl', tag=13,
         n={'quick': 400, 'thorough': 8000}, shard=50,
         theorems=['dense_exact', 'dense_protected', 'dense_reachable_inv', 'dense_prim_checker_sound',
                   'dense_insert_on_stored_key_refuted'],
@@ -38,7 +38,7 @@ PROPS = {
         trusted=['coq/Common/Sha256.v executable SHA-256 (NIST vectors by vm_compute; differential vs sha2 crate through every root comparison)'],
     ),
     'C14': dict(
-        id='C14', cluster='Mkl', crate='h-mkl', tag=14,
+        id='C14', crosscheck_n=1, cluster='Mkl', crate='h-mkl', tag=14,
         n={'quick': 160, 'thorough': 3000}, shard=10,
         theorems=['sparse_exact', 'sparse_frame', 'sparse_okb_sound'],
         classify=_c14_classes,
